@@ -202,6 +202,13 @@ def main(argv=None):
 
     code = EXIT_OK
     lines = []
+    if violations:
+        cnt = {}
+        for v in violations:
+            cnt[v["label"]] = cnt.get(v["label"], 0) + 1
+        lines.append("refuted claims (distinct labels, witnesses kept per shard are capped):")
+        for lab, n in sorted(cnt.items(), key=lambda kv: -kv[1])[:40]:
+            lines.append(f"  refuted x{n}: {lab}")
     # ---- harness errors
     for params, err in errors[:3]:
         lines.append(f"HARNESS-ERROR property={pid} shard={json.dumps(params)}\n{err}")
